@@ -3,6 +3,7 @@ import json
 from hypothesis import strategies as st
 import math
 from engine.driver import Result, viol
+from engine.sqfprog import vm_value
 
 
 def _ridx(x):
@@ -102,8 +103,15 @@ def _history(draw, max_ops=25):
     return dict(ops=ops)
 
 
+@st.composite
+def _shared(draw):
+    """an array whose element is shared many times over (built by doubling: _a = [_a, _a]); legal, acyclic, small in memory"""
+    return dict(shared=dict(depth=draw(st.integers(30, 60)), op=draw(st.sampled_from(["pushBack", "set", "hset", "append", "pushBackUnique_num", "cycle"]))))
+
+
 def strategy(env):
-    return _history(40 if env.tier == "thorough" else 25)
+    h = _history(40 if env.tier == "thorough" else 25)
+    return st.one_of(h, h, h, h, h, h, h, h, h, _shared())
 
 
 # ------------------------------------------------------------------ model
@@ -161,6 +169,13 @@ def has_nil(x, seen=None):
 def deep_copy_arr(a):
     # +array copies nested arrays; hashmaps inside are shared
     return [deep_copy_arr(e) if isinstance(e, list) else e for e in a]
+
+
+def deep_copy_hm(h):
+    # +hashmap shares nothing with its source: arrays and hashmaps held as values are copied too
+    n = HM()
+    n.d = {k: (deep_copy_arr(x) if isinstance(x, list) else deep_copy_hm(x) if isinstance(x, HM) else x) for k, x in h.d.items()}
+    return n
 
 
 def py_eq(a, b):
@@ -293,7 +308,7 @@ class Heap:
                 labs.add("mutate_shared")
             return 'H%d set ["%s", %s];' % (op[1], op[2], val_sqf(op[3])), refused, labs
         if k == "hcopy":
-            n = HM(); n.d = dict(H[op[2]].d); H[op[1]] = n
+            H[op[1]] = deep_copy_hm(H[op[2]])
             return "H%d = +H%d;" % (op[1], op[2]), False, labs
         if k == "delat":
             a, i = V[op[1]], _ridx(op[2])
@@ -420,6 +435,8 @@ NAMES = ["V%d" % i for i in range(NV)] + ["H%d" % i for i in range(NH)]
 
 def hang_labels(case):
     """labels of a case computed from the model alone (used when the VM never answers: a cycle built through a hashmap is the known finding)"""
+    if "shared" in case:
+        return ["shared_many_times"]
     heap = Heap()
     labs = set()
     for op in case["ops"]:
@@ -431,7 +448,32 @@ def hang_labels(case):
     return sorted(labs)
 
 
+def _check_shared(case, env):
+    """the cycle test of an insertion looks at every container once: a value shared 2^depth times is inserted as quickly as any other"""
+    c = case["shared"]
+    r = env.runner()
+    r.new(vm=0, ops="full")
+    d = c["depth"]
+    pre = "D = [1]; for \"_i\" from 1 to %d do { D = [D, D] }; W = [0]; H = createHashMap; R = [];" % d
+    op = {"pushBack": "R pushBack (W pushBack D); R pushBack (count W);",
+          "set": "W set [2, D]; R pushBack (count W);",
+          "hset": "H set [\"k\", D]; R pushBack (count H);",
+          "append": "W append [D, D]; R pushBack (count W);",
+          "pushBackUnique_num": "R pushBack (D pushBackUnique 7); R pushBack (count D);",
+          "cycle": "private _inner = D; while {count _inner == 2} do { _inner = _inner select 0 }; R pushBack (_inner pushBack D); R pushBack (count _inner);"}[c["op"]]
+    # (the refused insertion is an error: the script ends there, nothing is recorded)
+    exp = {"pushBack": [1.0, 2.0], "set": [3.0], "hset": [1.0], "append": [3.0], "pushBackUnique_num": [2.0, 3.0], "cycle": []}[c["op"]]
+    rep = r.run(pre + " " + op, vm=0, getvars=["R"], getvars_struct=True, timeout=20.0)
+    got = vm_value(rep["vars"]["R"]["value"]) if "R" in rep.get("vars", {}) else None
+    v = None
+    if got != exp or (c["op"] == "cycle" and not [l for l in rep.get("logs", []) if "recursion" in l["m"].lower()]):
+        v = viol("shared-many-times|" + c["op"], "%s %s\nR = %s, expected %s\nlogs: %s" % (pre, op, got, exp, [l["m"][:90] for l in rep.get("logs", [])[:3]]))
+    return Result(nontrivial=True, labels=["shared_many_times", "nontrivial"] + (["cycle_attempt"] if c["op"] == "cycle" else []), violation=v)
+
+
 def check(case, env):
+    if "shared" in case:
+        return _check_shared(case, env)
     r = env.runner()
     r.new(vm=0, ops="full")
     r.run("; ".join(["V%d = []" % i for i in range(NV)] + ["H%d = createHashMap" % i for i in range(NH)]) + ";", vm=0)
